@@ -187,6 +187,8 @@ def subst_case(draw):
     case["bels"] = bels
     case["mode"] = "subst"
     case["replace_all"] = draw(st.booleans())
+    # the first substitution may be partial (a fraction of the sites); the reverse one always replaces every B site
+    case["f1"] = draw(st.sampled_from([1.0, 1.0, 1.0, 0.5, 0.34, 0.67]))
     return case
 
 
@@ -204,11 +206,13 @@ def subst_oracle(case, stats):
     B = mf.atoms_from(case["ppos"], case["bels"])
     kw = dict(replace_all=case["replace_all"])
     try:
-        s1, k1 = mf.replace(s, A, B, case["atol"], case["hints"], case["seeds"], return_num_matches=True, **kw)
+        f1 = case.get("f1", 1.0)
+        s1, k1 = mf.replace(s, A, B, case["atol"], case["hints"], case["seeds"], return_num_matches=True, replace_fraction=f1, **kw)
     except Exception as e:
         raise Violation("exception-in-replace", "A->B: %s: %r" % (type(e).__name__, e))
-    if k1 != len(groups):
-        raise Violation("match-count", "A->B replaced %d of %d occurrences" % (k1, len(groups)))
+    if (f1 == 1.0 and k1 != len(groups)) or abs(k1 - f1 * len(groups)) > 0.5 + 1e-9:
+        raise Violation("match-count", "A->B (fraction %r) replaced %d of %d occurrences" % (f1, k1, len(groups)))
+    stats.count("subst:first-fraction:%s" % ("1" if f1 == 1.0 else "<1"))
     cell = np.array(case["cell"])
     # (iii) second search for A in the result must agree with the reference on the result
     c1 = dict(case)
